@@ -3938,8 +3938,9 @@ class Client:
             self._easy_log(
                 MQTT_LOG_DEBUG, "Received CONNACK (%s, %s)", flags, result)
 
-        # it won't be the first successful connect any more
-        self._mqttv5_first_connect = False
+        if result == 0:
+            # it won't be the first successful connect any more
+            self._mqttv5_first_connect = False
 
         with self._callback_mutex:
             on_connect = self.on_connect
